@@ -19,7 +19,7 @@ class PathElementRegistry:
         if instance is None:
             fault = Fault()
             fault.Code.Value = faultcodeEnum.SENDER
-            fault.add_reason_text(f'invalid path {path_element}')
+            fault.add_reason_text(f'invalid path {path_element!r}')  # repr: the text comes from the request, it may hold control characters
 
-            raise InvalidPathError(reason=f'{path_element} not found', soap_fault=fault)
+            raise InvalidPathError(reason=f'{path_element!r} not found', soap_fault=fault)
         return instance
